@@ -20,7 +20,7 @@ import sys
 import tempfile
 
 from . import common
-from .c12 import hx, kind_of, quiet, random_structure, unhx
+from .c12 import Collector, hx, kind_of, quiet, random_structure, unhx
 from .common import LEAN, VERIF
 
 GEN = os.path.join(LEAN, "DS", "Gen")
@@ -356,7 +356,9 @@ def read_case(ck, case, tmp, lines, pending):
     exc = do_read(t, fmt, mode, text, path)
     after = snapshot(t)
     where = "%s(%s) in state %r reading %s as %r via %s" % (clsname, prior, prior, label, fmt, "read" if mode == "file" else "readStr")
-    rp = {"kind": "read", "label": label, "format": fmt, "text": text, "prior": prior, "class": clsname, "mode": mode}
+    rp = {"kind": "read", "label": label, "format": fmt, "text": text, "prior": prior, "class": clsname, "mode": mode, "idx": case["idx"],
+          "file": None if path is None else os.path.relpath(path, tmp),
+          "expected": "a failed read leaves the target as it was; a successful one gives the state a new %s gets from the same source" % clsname}
     ck.coverage["evaluations"] += 1
     if sep[0] in ("err", "gp") or prior != "empty":
         ck.coverage["distinct_nontrivial"] += 1
@@ -462,10 +464,12 @@ def write_cases(ck):
     return cases
 
 
-def run_writes(ck, tmp):
+def run_writes(ck, tmp, only=None):
     from diffpy.structure.parsers import getParser
 
     cases = write_cases(ck)
+    if only is not None:
+        cases = [c for c in cases if (c[0], c[2], c[3]) == tuple(only)]
     OLD = b"KEEP THIS CONTENT\n\xff\x00binary tail"
     lines, pend = [], []
     for i, (sname, s, fmt, pre) in enumerate(cases):
@@ -516,7 +520,8 @@ def run_writes(ck, tmp):
         ck.coverage["evaluations"] += 1
         ck.coverage["distinct_nontrivial"] += 1 if exc is not None else 0
         where = "%s structure written as %r over %s file" % (sname, fmt, pre)
-        rp = {"kind": "write", "structure": sname, "format": fmt, "pre": pre}
+        rp = {"kind": "write", "structure": sname, "format": fmt, "pre": pre,
+              "expected": "a write that fails before the text exists leaves the file of that name as it was (bytes unchanged / still absent)"}
         # oracle: a failure while the text is produced (or in getParser / open) leaves the file alone
         text_produced = text is not None
         if exc is not None and not text_produced and now != was:
@@ -710,48 +715,49 @@ def run(ck):
 
 
 def replay(path):
+    """Re-executes exactly the recorded case on the tree selected by VERIF_REPO; 1 iff the property still fails on it
+    (listed known findings do not count unless the replay file is about that finding).  Writes no file under replays/."""
     common.use_repo()
     r = json.load(open(path))
     kind = r.get("kind")
-    ck = common.Check("C16", "quick", 0)
-    ck.known = []
+    want = r.get("key", "")
+    col = Collector("C16")
     if kind == "witness":
-        replay_witnesses(ck)
-        hit = [v for v in ck.violations if r.get("key", "") in json.load(open(v[0])).get("key", "")]
-        for v in ck.violations:
-            print(v[1])
-            os.remove(v[0])
+        replay_witnesses(col)
+        hit = [(k, w) for k, w in col.fails if k == want]
+        for k, w in hit:
+            print("FAILS", k, w)
         return 1 if hit else 0
-    if kind == "read":
-        tmp = tempfile.mkdtemp(prefix="verif_c16_replay_")
-        try:
+    tmp = tempfile.mkdtemp(prefix="verif_c16_replay_")
+    try:
+        if kind == "read":
             lines, pending = [], []
-            case = {"label": r["label"], "fmt": r["format"], "text": r["text"], "prior": r["prior"], "cls": r["class"], "mode": r["mode"], "idx": 1}
-            read_case(ck, case, tmp, lines, pending)
-            if r.get("key", "").startswith("model-vs-impl"):
-                out = common.driver(lines)
-                compare_model(ck, out[0], *pending[0][:5])
-        finally:
-            shutil.rmtree(tmp, ignore_errors=True)
-        for v in ck.violations:
-            print(v[1])
-            if v[0]:
-                os.remove(v[0])
-        return 1 if ck.violations else 0
-    if kind == "write":
-        tmp = tempfile.mkdtemp(prefix="verif_c16_replay_")
-        try:
-            run_writes(ck, tmp)
-        finally:
-            shutil.rmtree(tmp, ignore_errors=True)
-        hit = 0
-        for v in ck.violations:
-            if v[0]:
-                d = json.load(open(v[0]))
-                if d.get("structure") == r.get("structure") and d.get("format") == r.get("format") and d.get("pre") == r.get("pre"):
-                    print(v[1])
-                    hit = 1
-                os.remove(v[0])
-        return hit
-    print("nothing to replay on the implementation (%s): %s" % (kind, r.get("what")))
-    return 1
+            case = {"label": r["label"], "fmt": r["format"], "text": r["text"], "prior": r["prior"], "class": r["class"], "cls": r["class"],
+                    "mode": r["mode"], "idx": r.get("idx", 1)}
+            read_case(col, case, tmp, lines, pending)
+            out = common.driver(lines)          # read.* commands do not depend on generated data
+            compare_model(col, out[0], *pending[0][:5])
+        elif kind == "write":
+            run_writes(col, tmp, only=(r["structure"], r["format"], r["pre"]))
+        elif kind == "tailbase":
+            w = common.driver(["read.tailbase %s" % hx(r["name"])])[0]
+            if w == "bad-op" or unhx(w) != os.path.splitext(os.path.basename(r["name"]))[0]:
+                col.fail(want, "model %r" % w)
+        elif kind == "fresh":
+            import diffpy.structure as ds
+
+            w = common.driver(["read.fresh %s 1" % ("P" if r["class"] == "PDFFitStructure" else "S")])[0]
+            real = {k: view_val(v) for k, v in getattr(ds, r["class"])().__dict__.items()}
+            if dec_dict(w.split(" ")[1]) != real:
+                col.fail(want, "a new %s(): model %r, code %r" % (r["class"], dec_dict(w.split(" ")[1]), real))
+        else:
+            print("nothing to re-execute on the implementation (%s): %s" % (kind, r.get("what")))
+            return 0
+    finally:
+        shutil.rmtree(tmp, ignore_errors=True)
+    rel = col.relevant(want)
+    for k, w in rel:
+        print("FAILS", k, w[:400])
+    if not rel:
+        print("the recorded case passes on this tree (%d known-finding observation(s) ignored)" % len(col.fails))
+    return 1 if rel else 0
